@@ -133,8 +133,69 @@ class FieldAnalysis:
                 return "sub"
         return None
 
-    def sites(self, body, adt_suffix, field):
-        """mutation-relevant sites of (adt, field) in one body"""
+    def sites(self, body, adt_suffix, field, through_self=False):
+        """mutation-relevant sites of (adt, field) in one body.  through_self: a call that hands the whole object (`&mut self`)
+        to a workspace body which itself mutates the field counts as a site of the caller (so that moving a loop into a
+        private helper does not hide the mutation), classified by the strongest thing the callee does."""
+        out = self._sites(body, adt_suffix, field)
+        if through_self:
+            out = list(out)
+            for bb, t in body.calls():
+                tgt = self._callee_body(t)
+                if tgt is None or tgt.path == body.path:
+                    continue
+                # the callee receives the object itself (not the field): a parameter whose type is a reference to the ADT
+                hands_object = False
+                for i in range(1, min(tgt.argc, len(t["args"])) + 1):
+                    ty = tgt.ty(i)
+                    base = ty
+                    while base["k"] in ("ref", "refmut"):
+                        base = tgt.tyix(base["i"])
+                    if ty["k"] == "refmut" and base["k"] == "adt" and base.get("d", "").endswith(adt_suffix):
+                        hands_object = True
+                if not hands_object:
+                    continue
+                k = self._callee_field_kind(tgt, adt_suffix, field, 0)
+                if k in ("insert", "remove", "replace", "unknown"):
+                    out.append(("call", bb, tgt.path.replace("::{closure#0}", ""), k))
+        return out
+
+    def _callee_body(self, t):
+        res = t.get("res") or t.get("callee")
+        tgt = self.prog.bodies.get(res) if res else None
+        if tgt is None or tgt.is_promoted:
+            return None
+        cor = self.prog.bodies.get(tgt.path + "::{closure#0}")
+        if cor is not None and cor.is_coroutine:
+            return cor
+        return tgt
+
+    def _callee_field_kind(self, tgt, adt_suffix, field, depth):
+        key = (tgt.path, adt_suffix, field)
+        if key in self._all:
+            return self._all[key]
+        self._all[key] = "read"
+        if depth > 4:
+            return "read"
+        kinds = [x[3] for x in self._sites(tgt, adt_suffix, field)]
+        for bb, t in tgt.calls():
+            sub = self._callee_body(t)
+            if sub is None or sub.path == tgt.path:
+                continue
+            for i in range(1, min(sub.argc, len(t["args"])) + 1):
+                ty = sub.ty(i)
+                base = ty
+                while base["k"] in ("ref", "refmut"):
+                    base = sub.tyix(base["i"])
+                if ty["k"] == "refmut" and base["k"] == "adt" and base.get("d", "").endswith(adt_suffix):
+                    kinds.append(self._callee_field_kind(sub, adt_suffix, field, depth + 1))
+                    break
+        r = strongest([k for k in kinds if k in ("insert", "remove", "replace", "unknown")]) if any(
+            k in ("insert", "remove", "replace", "unknown") for k in kinds) else "read"
+        self._all[key] = r
+        return r
+
+    def _sites(self, body, adt_suffix, field):
         out = []
         roots = set()
         for bb, blk in enumerate(body.blocks):
